@@ -102,6 +102,11 @@ class Rec:
             if "staticmethod" in decos:
                 f.bound = None
             return f
+        if self.cls:
+            mod, _, q = self.cls.partition(":")
+            m = sx.model.modules.get(mod)
+            if m is not None and q in m.classes:
+                return sx.getattr(ClassRef(m, q), attr, node)
         sx.unsupported(node, f"attribute {attr} of the record {self.label} is not modelled")
 
 
